@@ -56,9 +56,39 @@ def compare_model(ctx, src, fin, strict, obs, m, tag):
         ctx.disagree('model.func', {'src': src, 'fin': fin, 'strict': strict, 'diffs': diffs, 'tag': tag})
 
 
+def chain_loop(rng):
+    """a loop whose body is an if / else-if chain of short blocks of copies and single operations:
+    the one-iteration relation is a SUM of near-identity relations, whose closure needs several rounds"""
+    vs = ['a', 'b', 'c', 'd']
+
+    nbin = [0]
+
+    def asg():
+        x = rng.choice(vs)
+        r = rng.random()
+        if r < 0.55 or nbin[0] >= 3:
+            return f'{x} = {rng.choice(vs)};'
+        nbin[0] += 1
+        y = rng.choice(vs)
+        z = rng.choice(vs)
+        return f'{x} = {y} {rng.choice("+*")} {z};'
+    arms = ['{ ' + ' '.join(asg() for _ in range(rng.randint(1, 3))) + ' }' for _ in range(rng.randint(2, 4))]
+    body = 'if (t) ' + ' else if (t) '.join(arms[:-1]) + ' else ' + arms[-1]
+    kind = rng.random()
+    if kind < 0.6:
+        loop = f'while (t) {{ {body} }}'
+    elif kind < 0.8:
+        loop = f'do {{ {body} }} while (t);'
+    else:
+        loop = f'for (i = 0; i < n; i++) {{ {body} }}'
+    return f'int f(int a,int b,int c,int d,int t,int n,int i){{ {loop} }}'
+
+
 def gen_sources(ctx, n, opts_fn):
     rng = ctx.rng
     out = list(CORPUS_SRC)
+    for _ in range(max(6, n // 4)):
+        out.append(chain_loop(rng))
     for i in range(n):
         src, g = gen_function(rng, opts_fn(i))
         out.append(src)
@@ -119,6 +149,9 @@ def run_functions(ctx, sources, modes, on_result=None, check_op='check.func', cl
                     continue
                 wire = astwire.W(node)
                 obs, res = implobs.observe_func(node, fin, ctx.rng)
+                if obs.get('raised') == 'Timeout':
+                    ctx.count('analysis_timeout')      # running time is not decided here (exit 2 territory), skip
+                    continue
                 nontrivial = (obs.get('index') or 0) >= 1
                 ctx.case((src, fin, strict), nontrivial=nontrivial,
                          sample={'src': src, 'fin': fin, 'strict': strict, 'infinite': obs.get('infinite'),
